@@ -7,7 +7,7 @@ import ast
 import re
 
 from ..engine.enumtables import EventTables, ISO
-from ..engine.program import src, walk_no_nested, call_name, enclosing_stmt
+from ..engine.program import AnalysisError, src, walk_no_nested, call_name, enclosing_stmt
 from ..engine import flow
 
 
@@ -134,67 +134,116 @@ def x5(prog, ctx):
     Conventions used (pysam): alignment.reference_end = 1-based coordinate L of the last aligned base (0-based exclusive end);
     alignment.reference_start = F - 1 with F the 1-based coordinate of the first aligned base; read index m_end = first base after the
     aligned part, m_start = first aligned base; for an ungapped walk move_ref_coord_alogn_alignment(alignment, shift) = |shift|
-    (the walkers themselves are decided by C16/Q1, Q3)."""
+    (the walkers themselves are decided by C16/Q1, Q3).  The offsets are read off every returning path (helpers inlined): the part of
+    the path after the last assignment of the read index is evaluated symbolically, so that the result is a linear form over the
+    reference coordinate, the read index and the mapped-region boundary."""
     from ..engine import linform as lf, symexec
     PFM = "src/polya_finder.py"
     res = {}
     for name, ref_attr in (("PolyAFinder.find_polya_tail", "alignment.reference_end"), ("PolyAFinder.find_polyt_head", "alignment.reference_start")):
-        f = prog.func(PFM, name)
-        rets = [r for r in walk_no_nested(f) if isinstance(r, ast.Return) and r.value is not None and not isinstance(r.value, ast.Constant)
-                and not (isinstance(r.value, ast.UnaryOp))]
-        if len(rets) != 1:
-            raise AnalysisError("%s: expected one non-constant return" % name)
-        rv = rets[0].value
-        if isinstance(rv, ast.Call) and (call_name(rv) or "") == "max" and len(rv.args) == 2:      # max(1, position): clamp at the chromosome start
-            rv = next(a for a in rv.args if not isinstance(a, ast.Constant))
-        if not isinstance(rv, ast.Name):
-            raise AnalysisError("%s: returned position is not a local" % name)
-        # the last if-statement both of whose branches assign the returned local
-        cand = [st for st in f.body if isinstance(st, ast.If) and st.orelse
-                and all(any(isinstance(a, ast.Assign) and src(a.targets[0]) == rv.id for a in blk) for blk in (st.body, st.orelse))]
-        if len(cand) != 1 or not (isinstance(cand[0].test, ast.Compare) and len(cand[0].test.ops) == 1):
-            raise AnalysisError("%s: the clipped / aligned case distinction for %s was not found" % (name, rv.id))
-        st = cand[0]
-        l, r = st.test.left, st.test.comparators[0]
-        if not (isinstance(l, ast.Name) and isinstance(r, ast.Name)):
-            raise AnalysisError("%s: case distinction is not <read index> <op> <mapped-region boundary>" % name)
-        pos, bound = l.id, r.id
+        f0 = prog.func_inlined(PFM, name, exclude=("move_ref_coord_alogn_alignment", "find_polya"))
+        # the projection onto the reference may have been split off into a helper of the class: analyse the function that holds it
+        cands = [(f0, {a.arg for a in f0.args.args})]
+        meths = prog.methods_of(prog.cls(PFM, "PolyAFinder"), inherited=False)
+        for c in ast.walk(prog.func(PFM, name)):
+            if isinstance(c, ast.Call) and isinstance(c.func, ast.Attribute) and c.func.attr in meths and c.func.attr != name.split(".")[-1]:
+                cands.append((meths[c.func.attr], set()))
+        f = bounds = pos_names = None
+        for g, excluded in cands:
+            b_ = {n.id for n in ast.walk(g) if isinstance(n, ast.Name) and "mapped_region" in n.id} | \
+                 {a.arg for a in g.args.args if "mapped_region" in a.arg}
+            p_ = set()
+            for n in ast.walk(g):
+                pair = None
+                if isinstance(n, ast.BinOp) and isinstance(n.op, ast.Sub):
+                    pair = (n.left, n.right)
+                elif isinstance(n, ast.Compare) and len(n.ops) == 1:
+                    pair = (n.left, n.comparators[0])
+                if pair and all(isinstance(x, ast.Name) for x in pair):
+                    ids = {pair[0].id, pair[1].id}
+                    if len(ids & b_) == 1:
+                        p_ |= ids - b_ - excluded
+            if len(b_) == 1 and len(p_) == 1 and ref_attr.split(".")[-1] in {a.attr for a in ast.walk(g) if isinstance(a, ast.Attribute)}:
+                f, bounds, pos_names = g, b_, p_
+                break
+        if f is None:
+            raise AnalysisError("%s: read index / mapped-region boundary not identified in the function or its helpers" % name)
+        bound, pos = next(iter(bounds)), next(iter(pos_names))
         out = {}
-        for label, blk, in_clip in (("tail in the clipped part", st.body, True), ("tail inside the aligned part", st.orelse, False)):
-            env = {}
-            for a in blk:
-                if isinstance(a, ast.Assign) and len(a.targets) == 1 and isinstance(a.targets[0], ast.Name):
-                    v = symexec.subst(a.value, env)
-                    if isinstance(a.value, ast.Call) and (call_name(a.value) or "").endswith("move_ref_coord_alogn_alignment") and len(a.value.args) == 2:
-                        sh = lf.linform(symexec.subst(a.value.args[1], env))
-                        # sign of the shift in this branch: the branch condition says on which side of the boundary the index lies
-                        d = {k: c for k, c in sh.items()}
-                        want_pos = {pos: 1, bound: -1}
-                        if d == want_pos:
-                            positive = isinstance(st.test.ops[0], (ast.LtE, ast.Lt))      # else-branch of pos <= bound: pos > bound
-                        elif d == {k: -c for k, c in want_pos.items()}:
-                            positive = isinstance(st.test.ops[0], (ast.GtE, ast.Gt))
-                        else:
-                            raise AnalysisError("%s: shift handed to the walker is not +-(index - boundary)" % name)
-                        mag = symexec.subst(a.value.args[1], env)
-                        v = mag if positive else ast.UnaryOp(op=ast.USub(), operand=mag)
-                    env[a.targets[0].id] = v
-            if rv.id not in env:
-                raise AnalysisError("%s: %s not assigned in the branch '%s'" % (name, rv.id, label))
-            form = lf.linform(env[rv.id])
+        for pth in flow.paths(f):
+            if pth.exit != "return" or pth.exit_node is None or pth.exit_node.value is None:
+                continue
+            rv = pth.exit_node.value
+            if isinstance(rv, ast.Constant) or (isinstance(rv, ast.UnaryOp) and isinstance(rv.operand, ast.Constant)):
+                continue
+            # suffix of the path after the last (re)definition of the read index
+            last = -1
+            for i_, ev in enumerate(pth.events):
+                if ev[0] == "stmt" and isinstance(ev[1], (ast.Assign, ast.AugAssign)):
+                    tg = ev[1].targets if isinstance(ev[1], ast.Assign) else [ev[1].target]
+                    if any(isinstance(t, ast.Name) and t.id in (pos, bound) for t in tg):
+                        last = i_
+            suffix = flow.Path(pth.events[last + 1:], pth.exit, pth.exit_node)
+            env = symexec.run_path(suffix)
+            val = symexec.subst(rv, env)
+            if isinstance(val, ast.Call) and (call_name(val) or "") == "max" and len(val.args) == 2:       # max(1, position): clamp at the chromosome start
+                val = next(a for a in val.args if not isinstance(a, ast.Constant))
+            # which side of the boundary: from the conditions of the suffix
+            sub = symexec.cond_substituter(suffix)
+            side = None
+            for i_, ev in enumerate(suffix.events):
+                if ev[0] != "cond":
+                    continue
+                for atom, pol in flow.conjuncts(ev[1], ev[2]):
+                    atom = sub(atom, i_)
+                    if isinstance(atom, ast.Compare) and len(atom.ops) == 1:
+                        d = dict(lf.linform(atom.left))
+                        for k, c in lf.linform(atom.comparators[0]).items():
+                            d[k] = d.get(k, 0) - c
+                        d = {k: c for k, c in d.items() if c}
+                        if set(d) - {"1"} == {pos, bound} and d[pos] == -d[bound]:
+                            op = type(atom.ops[0])
+                            if not pol:
+                                op = {ast.Lt: ast.GtE, ast.LtE: ast.Gt, ast.Gt: ast.LtE, ast.GtE: ast.Lt}.get(op)
+                            sgn = d[pos]          # sgn * (pos - bound) + c  op 0
+                            c0 = d.get("1", 0)
+                            if op in (ast.Gt, ast.GtE):
+                                side = ("above" if sgn > 0 else "below", c0, op)
+                            elif op in (ast.Lt, ast.LtE):
+                                side = ("below" if sgn > 0 else "above", c0, op)
+            if side is None:
+                raise AnalysisError("%s: a returning path does not compare the read index with the mapped-region boundary: %s" % (name, pth.describe()[:100]))
+            above = side[0] == "above"
+            # |shift| for the walker: shift = +-(pos - bound)
+            def walker(e):
+                class T(ast.NodeTransformer):
+                    def visit_Call(self_, c):
+                        if (call_name(c) or "").endswith("move_ref_coord_alogn_alignment") and len(c.args) == 2:
+                            sh = lf.linform(c.args[1])
+                            if set(sh) == {pos, bound} and sh[pos] == -sh[bound]:
+                                mag = ast.BinOp(left=ast.Name(id=pos, ctx=ast.Load()), op=ast.Sub(), right=ast.Name(id=bound, ctx=ast.Load()))
+                                return mag if above else ast.UnaryOp(op=ast.USub(), operand=mag)
+                        return self_.generic_visit(c)
+                return T().visit(symexec.clone(e))
+            form = lf.linform(walker(val))
             base = {ref_attr: 1, pos: 1, bound: -1}
             rest = dict(form)
             for k, c in base.items():
                 rest[k] = rest.get(k, 0) - c
             rest = {k: c for k, c in rest.items() if c}
             if set(rest) - {"1"}:
-                raise AnalysisError("%s (%s): position is not %s + %s - %s + const: %s" % (name, label, ref_attr, pos, bound, lf.fmt(form)))
-            const = rest.get("1", 0)
-            # coordinate of read index `pos`:  polyA: L + 1 + (pos - m_end) ; polyT: F - (m_start - pos) = reference_start + 1 + pos - m_start
-            out[label] = const - 1
+                raise AnalysisError("%s: position on path %s is not %s + %s - %s + const: %s" % (name, pth.describe()[:60], ref_attr, pos, bound, lf.fmt(form)))
+            in_clip = above if ref_attr.endswith("reference_end") else not above
+            label = "tail in the clipped part" if in_clip else "tail inside the aligned part"
+            off = rest.get("1", 0) - 1
+            if label in out and out[label] != off:
+                raise AnalysisError("%s: two paths of the branch '%s' give different offsets" % (name, label))
+            out[label] = off
+        if len(out) != 2:
+            raise AnalysisError("%s: expected a clipped and an aligned branch, found %s" % (name, sorted(out)))
         res[name] = (out, f)
     (da, fa), (dt, ft) = res["PolyAFinder.find_polya_tail"], res["PolyAFinder.find_polyt_head"]
-    for label in da:
+    for label in sorted(da):
         if da[label] + dt[label] == 0:
             ctx.ok("X5", "%s:%d" % (PFM, ft.lineno), "%s: polyA = first tail base %+d, polyT = last head base %+d (mirror images)" % (label, da[label], dt[label]))
         else:
